@@ -155,3 +155,206 @@ def rule_sh1(ctx):
                     f"{len(bad)} configuration(s) fail; first: {bad[0][0]}: "
                     f"{bad[0][1]}", instance="broadcast_match")
     return total
+
+
+# ---------------------------------------------------------------------------
+# SH2: vectorised helpers preserve the composite (outer) shape
+
+HYP = "geometry_tools/hyperbolic.py"
+
+
+def _outer_shapes(tier):
+    R = 2 if tier == "quick" else 3
+    base = [tuple(f"A{i}" for i in range(1, k + 1)) for k in range(R + 1)]
+    out = list(base)
+    # size-1 composite axes
+    for b in base:
+        for i in range(len(b)):
+            out.append(tuple(1 if j == i else d for j, d in enumerate(b)))
+    return out
+
+
+def rule_sh2(ctx):
+    r = ctx.r
+    r.rule("SH2", "abstract interpretation of the vectorised helpers "
+                  "(apply_bilinear, normsq, normalize, projection, "
+                  "indefinite_orthogonalize, sphere_inversion, "
+                  "circle_angles, the model chart maps, "
+                  "Segment/TangentVector._compute_aux_data, "
+                  "project_to_hyperboloid) over symbolic composite shapes "
+                  "of every rank: the result carries exactly the outer "
+                  "axes of the input, each from its own input axis")
+    core = ctx.p.module_by_rel(CORE)
+    hyp = ctx.p.module_by_rel(HYP)
+    it_core = Interp(core.tree)
+    it_hyp = Interp(hyp.tree, extra_trees=(("utils", core.tree),))
+    seg = ctx.p.get_function(HYP, "Segment._compute_aux_data")
+    tv = ctx.p.get_function(HYP, "TangentVector._compute_aux_data")
+    N = ("n",)
+    F = AArr(("n", "n"))
+
+    def c(name):
+        return lambda *a: it_core.call(name, list(a))
+
+    def h(name):
+        return lambda *a: it_hyp.call(name, list(a))
+    table = [
+        ("utils.apply_bilinear", CORE, "apply_bilinear",
+         lambda O: c("apply_bilinear")(AArr(O + N), AArr(O + N), F),
+         lambda O: O),
+        ("utils.apply_bilinear(euclidean)", CORE, "apply_bilinear",
+         lambda O: c("apply_bilinear")(AArr(O + N), AArr(O + N)),
+         lambda O: O),
+        ("utils.apply_bilinear(composite, single)", CORE, "apply_bilinear",
+         lambda O: c("apply_bilinear")(AArr(O + N), AArr(N), F),
+         lambda O: O),
+        ("utils.normsq", CORE, "normsq",
+         lambda O: c("normsq")(AArr(O + N), F), lambda O: O),
+        ("utils.normalize", CORE, "normalize",
+         lambda O: c("normalize")(AArr(O + N), F), lambda O: O + N),
+        ("utils.projection", CORE, "projection",
+         lambda O: c("projection")(AArr(O + N), AArr(O + N), F),
+         lambda O: O + N),
+        ("utils.indefinite_orthogonalize", CORE, "indefinite_orthogonalize",
+         lambda O: c("indefinite_orthogonalize")(F, AArr(O + (2, "n"))),
+         lambda O: O + (2, "n")),
+        ("utils.sphere_inversion", CORE, "sphere_inversion",
+         lambda O: c("sphere_inversion")(AArr(O + N)), lambda O: O + N),
+        ("utils.circle_angles", CORE, "circle_angles",
+         lambda O: c("circle_angles")(AArr(O + (2,)), AArr(O + ("k", 2))),
+         lambda O: O + ("k",)),
+        ("kleinian_to_poincare", HYP, "kleinian_to_poincare",
+         lambda O: h("kleinian_to_poincare")(AArr(O + N)), lambda O: O + N),
+        ("poincare_to_kleinian", HYP, "poincare_to_kleinian",
+         lambda O: h("poincare_to_kleinian")(AArr(O + N)), lambda O: O + N),
+        ("poincare_to_halfspace", HYP, "poincare_to_halfspace",
+         lambda O: h("poincare_to_halfspace")(AArr(O + N)), lambda O: O + N),
+        ("halfspace_to_poincare", HYP, "halfspace_to_poincare",
+         lambda O: h("halfspace_to_poincare")(AArr(O + N)), lambda O: O + N),
+        ("hyperboloid_coords", HYP, "hyperboloid_coords",
+         lambda O: h("hyperboloid_coords")(AArr(O + N)), lambda O: O + N),
+        ("project_to_hyperboloid", HYP, "project_to_hyperboloid",
+         lambda O: h("project_to_hyperboloid")(AArr(O + N), AArr(O + N), F),
+         lambda O: O + N),
+        ("Segment._compute_aux_data", HYP, "Segment._compute_aux_data",
+         lambda O: it_hyp.call_node(seg.node, [None, AArr(O + (2, "n"))]),
+         lambda O: O + (2, "n")),
+        ("TangentVector._compute_aux_data", HYP,
+         "TangentVector._compute_aux_data",
+         lambda O: it_hyp.call_node(tv.node, [None, AArr(O + (2, "n"))]),
+         lambda O: O + (2, "n")),
+    ]
+    outers = _outer_shapes(ctx.tier)
+    total = 0
+    for label, rel, q, run, want in table:
+        f = ctx.p.get_function(rel, q)
+        r.analysed(f)
+        bad = []
+        for O in outers:
+            if label.endswith("kleinian_to_poincare") and False:
+                continue
+            total += 1
+            try:
+                got = run(O)
+                w = tuple(want(O))
+                gs = got.shape if isinstance(got, AArr) else None
+                # a rank-0 result may come back as a scalar
+                if gs is None and w == ():
+                    continue
+                if label in ("kleinian_to_poincare", "poincare_to_kleinian") \
+                        and O == ():
+                    pass
+                if gs != w:
+                    raise ShapeError(f"result shape {gs}, expected {w}")
+            except DataDependent as e:
+                bad.append((O, str(e)))
+            except ShapeError as e:
+                bad.append((O, str(e)))
+        inst = f"SH2:{label}"
+        if not bad:
+            r.ok("SH2", inst, loc(f, f.node), "",
+                 f"{len(outers)} composite shapes keep their outer axes")
+        else:
+            O, why = bad[0]
+            r.violation(
+                "SH2", f"{f.fq}|{label}", loc(f, f.node), label,
+                f"{len(bad)} of {len(outers)} composite shapes fail; first: "
+                f"outer shape {O}: {why}. The vectorised result is not the "
+                "per-unit result at each index (axes are mixed or the call "
+                "raises for composites of this rank)", instance=inst)
+    r.extra["SH2_evaluations"] = total
+    return total
+
+
+# ---------------------------------------------------------------------------
+# AX1: axis discipline in vectorised code
+
+
+AXIS_FUNCS = {"np.flip": 1, "np.sort": 1, "np.argsort": 1, "np.roll": 2,
+              "np.cumsum": 1, "np.cumprod": 1, "np.squeeze": 1,
+              "np.diff": 2}
+AXIS_METHODS = {"sort", "argsort", "squeeze", "cumsum"}
+# functions whose argument is one-dimensional by construction, or that belong
+# to a not-applicable property (reason frozen per entry)
+AX1_EXEMPT = {
+    "diagonalize_form": "C18 (not applicable); `order` is 1-d for the single "
+                        "forms the claimed properties pass",
+}
+
+
+def rule_ax1(ctx, rels):
+    import ast
+    from ..flow import dotted
+    from ..project import norm_stmt
+    r = ctx.r
+    r.rule("AX1", "in vectorised code a reordering / cumulative / squeezing "
+                  "NumPy call (np.flip, np.sort, np.argsort, np.roll, "
+                  "np.cumsum, np.squeeze, .sort()) names its axis: without "
+                  "one it acts on every axis (or the flattened array) and "
+                  "mixes the units of a composite")
+    n = 0
+    for rel in rels:
+        m = ctx.p.module_by_rel(rel)
+        for f in ctx.p.all_functions:
+            if f.module is not m or f.parent is not None:
+                continue
+            for c in ast.walk(f.node):
+                if not isinstance(c, ast.Call):
+                    continue
+                nm = dotted(c.func)
+                kws = {k.arg for k in c.keywords}
+                hit = False
+                if nm in AXIS_FUNCS:
+                    n += 1
+                    if "axis" not in kws and len(c.args) <= AXIS_FUNCS[nm]:
+                        hit = True
+                elif isinstance(c.func, ast.Attribute) \
+                        and c.func.attr in AXIS_METHODS \
+                        and not nm.startswith(("np.", "utils.")):
+                    n += 1
+                    if "axis" not in kws and not c.args:
+                        hit = True
+                else:
+                    continue
+                r.analysed(f)
+                inst = f"{f.qualname}:{dotted(c)[:60]}"
+                if not hit:
+                    r.ok("AX1", inst, loc(f, c), dotted(c)[:100],
+                         "axis is given")
+                elif f.name in AX1_EXEMPT:
+                    r.note("AX1", loc(f, c), dotted(c)[:100],
+                           "axis-less call, exempt: " + AX1_EXEMPT[f.name])
+                else:
+                    parents = f.module.parents
+                    st = c
+                    while not isinstance(st, ast.stmt):
+                        st = parents[st]
+                    r.violation(
+                        "AX1", f"{f.fq}|{norm_stmt(st)[:100]}", loc(f, c),
+                        norm_stmt(st)[:160],
+                        f"`{dotted(c)[:60]}` has no axis: on a composite "
+                        "(more than one unit) it reorders across units as "
+                        "well as within them, so values are exchanged "
+                        "between different units of the array",
+                        instance=inst)
+    r.require_count("AX1", "axis-sensitive calls in scope", n, 5)
